@@ -2,7 +2,7 @@
 import copy
 import json
 
-from .world import (CTX_NAMES, EXC_CTX_NAMES, PERM_TOKENS, WRAPPERS, ROUTES, KINDS, RES_PATHS, EXC_KINDS)
+from .world import (CTX_NAMES, EXC_CTX_NAMES, PERM_TOKENS, WRAPPERS, ROUTES, KINDS, RES_PATHS, EXC_KINDS, OFFERS, ACCEPT_HEADERS)
 
 NAMES = ['', 'v', 'w1', 'w2']
 VNAMES = ['', 'v', 'w1', 'w2', 'zz']
@@ -67,6 +67,8 @@ def gen_viewlike(rng, tag, routes, has_static):
         v['ctx'] = rng.choice(CTX_NAMES)
         v['name'] = rng.choice(['', '', '', 'v', 'v', 'w1', 'w2'])
         v['perm'] = gen_perm(rng)
+        if rng.random() < 0.15:
+            v['accept'] = rng.choice(OFFERS)          # content negotiation: the view lives in media_views of its MultiView
         if v['perm'] is None and rng.random() < 0.2:
             v['xnone'] = True                         # permission=None passed explicitly
         if v['kind'] in ('cls', 'cls2', 'attr') and rng.random() < 0.35:
@@ -128,7 +130,7 @@ def disc_key(s):
         elif n == 'custom':
             v = [list(x) for x in v]
         pk.append([n, v])
-    return ('view', ctx, s['name'] if s['k'] == 'view' else '', s.get('route'), json.dumps(pk))
+    return ('view', ctx, s['name'] if s['k'] == 'view' else '', s.get('route'), json.dumps(pk), s.get('accept'))
 
 
 def gen_requests(rng, case, n):
@@ -141,6 +143,8 @@ def gen_requests(rng, case, n):
              'truth': sorted(rng.sample(range(4), rng.choice([0, 1, 2, 3, 4])))}
         if rng.random() < 0.35:
             r['csrf'] = True                          # the request carries a valid CSRF token (cookie + header)
+        if any(s.get('accept') for s in case['stmts']) and rng.random() < 0.75:
+            r['accept'] = rng.choice(ACCEPT_HEADERS)
         t = rng.choice(views) if views and rng.random() < 0.8 else None
         if rng.random() < 0.15:                       # render_view_to_response called directly, secure or not
             r['op'], r['secure'] = 'render', rng.random() < 0.4
@@ -338,7 +342,9 @@ def valid(case):
                     if 'xnone' in s and (s['xnone'] is not True or s['perm'] is not None):
                         return False
                 elif k in ('view', 'notfound', 'forbidden', 'excview'):
-                    if set(s) - {'csrf', 'vd', 'xnone'} != set(base_view(0)) or ('csrf' in s and (s['csrf'] is not True or k != 'view')):
+                    if 'accept' in s and not (k == 'view' and s['accept'] in OFFERS and s['ctx'] in CTX_NAMES):
+                        return False
+                    if set(s) - {'csrf', 'vd', 'xnone', 'accept'} != set(base_view(0)) or ('csrf' in s and (s['csrf'] is not True or k != 'view')):
                         return False
                     if 'xnone' in s and (s['xnone'] is not True or k != 'view' or s['perm'] is not None or 'vd' in s):
                         return False
@@ -414,7 +420,9 @@ def valid(case):
                                or any(not isinstance(r, dict) or r.get('op') for r in case['warm'])):
             return False
         for r in case['requests'] + case.get('warm', []):
-            if set(r) - {'static', 'op', 'secure', 'csrf'} != {'route', 'res', 'vname', 'method', 'xhr', 'truth'}:
+            if set(r) - {'static', 'op', 'secure', 'csrf', 'accept'} != {'route', 'res', 'vname', 'method', 'xhr', 'truth'}:
+                return False
+            if 'accept' in r and r['accept'] not in ACCEPT_HEADERS:
                 return False
             if 'csrf' in r and r['csrf'] is not True:
                 return False
@@ -461,7 +469,16 @@ def shrinks(case):
         c2 = dict(case)
         del c2['sibling']
         yield c2
+    for i, r in enumerate(rq):
+        if r.get('accept'):
+            r2 = dict(r)
+            del r2['accept']
+            yield dict(case, requests=rq[:i] + [r2] + rq[i + 1:])
     for i, s in enumerate(st):
+        if s.get('accept'):
+            s2 = dict(s)
+            del s2['accept']
+            yield dict(case, stmts=st[:i] + [s2] + st[i + 1:])
         if s.get('xnone') or s.get('swap'):
             s2 = dict(s)
             s2.pop('xnone', None)
@@ -649,6 +666,17 @@ def targeted_cases():
             rqs = [_rq(vname='v', method=x) for x in ('GET', 'POST', 'HEAD')]
             out.append(_case(copy.deepcopy(st), [], copy.deepcopy(rqs), cut=2))
             out.append(_case(copy.deepcopy(st), [['edit', [0, 0]]], copy.deepcopy(rqs), cut=2))
+    # content negotiation: a slot with accept= views served under some Accept header, then a later commit overrides one
+    # constituent (same predicates, same accept) with a protected view; the same and other spellings of the header follow
+    for other in ({'accept': 'text/html'}, {'preds': {'xhr': True}}):
+        st = [dict(pol), _v(1, name='v', accept='application/json'), _v(2, name='v', **other),
+              _v(3, name='v', accept='application/json', perm='edit')]
+        rqs = [dict(_rq(vname='v'), accept=h) for h in ('application/json', 'application/json;q=0.9', 'text/html', '*/*')] + [_rq(vname='v')]
+        for g in ([], [['edit', [0, 0]]]):
+            c = _case(copy.deepcopy(st), g, copy.deepcopy(rqs), cut=2)
+            c['warm'] = [dict(_rq(vname='v'), accept='application/json'), _rq(vname='v')]
+            out.append(c)
+        out.append(_case(copy.deepcopy(st[:3]), [], copy.deepcopy(rqs)))
     # two commits: override under the other interface; append_slash written after the policy is in force
     st = [dict(pol), _v(1), _v(2, perm='edit')]
     out.append(_case(st, [], [_rq()], cut=1))
